@@ -400,6 +400,27 @@ def run(case, sim):
                 without[i] = wo
             exp = without[i]
             shift = 1
+            # "a failure while applying one event does not prevent later events from being applied" - the same
+            # event submitted again is such a later event: the retry reaches the fault-free outcome
+            if ops[i][0] == "add" and r.hang is None and erng.random() < 0.35:
+                probes["retries_after_failure"] = probes.get("retries_after_failure", 0) + 1
+                r2 = HistRun(sim, backend, ops[:i + 1] + [ops[i]] + ops[i + 1:], faults={(i, k): kind}).go()
+                if r2.hang is not None:
+                    viol.append({"cls": "retry-stuck", "sig": "retry-stuck|%s|%s" % (backend, ref.call_names[i][k]),
+                                 "detail": {"fault": fault, "stuck_op": r2.hang}})
+                elif len(r2.obs) > i + 1 and canon(r2.obs[i + 1]["post"]) != post[i]:
+                    viol.append({"cls": "retry-not-applied",
+                                 "sig": "retry-not-applied|%s|%s" % (backend, ref.call_names[i][k]),
+                                 "detail": {"fault": fault, "first": r2.obs[i].get("res"), "retry": r2.obs[i + 1].get("res")}})
+                else:
+                    for j in range(i + 1, len(ops)):
+                        if len(r2.obs) <= j + 1:
+                            break
+                        if canon(r2.obs[j + 1]["post"]) != post[j]:
+                            viol.append({"cls": "later-op-deviates",
+                                         "sig": "later-op-deviates|%s|retry>%s" % (backend, ops[j][0]),
+                                         "detail": {"fault": fault, "later_op": j, "res": r2.obs[j + 1].get("res")}})
+                            break
         elif atomic_ok(i, r.obs[i]["post"]):
             # a multi-event pass (GC / API delete) stopped half way: whole events only; what the
             # later operations then do depends on which ones went, so only liveness is judged
